@@ -91,7 +91,7 @@ fn c06_grid() -> Vec<History> {
             for entry in 0..9u8 {
                 let mut ops = prefix.clone();
                 let chars: Vec<String> = vec!["aé€𝄞".repeat((n % 11).min(10))];
-                let it = |kind| IterSpec { kind, items: chars.clone(), slots: vec![], hint: Some(n), panic_at: None, loose: None, fx: None };
+                let it = |kind| IterSpec { kind, items: chars.clone(), slots: vec![], hint: Some(n), panic_at: None, loose: None, fx: None, upper: None };
                 ops.push(match entry {
                     0 => Op::WithCapacity { slot: 3, n: Size::Abs(n), try_: true },
                     1 => Op::WithCapacity { slot: 3, n: Size::Abs(n), try_: false },
@@ -577,7 +577,7 @@ pub fn c12(tier: Tier, seed: u64) -> Verdict {
                         if !fill.is_empty() {
                             items.insert(k / 2, fill.to_string());
                         }
-                        let it = IterSpec { kind, items, slots: vec![], hint: None, panic_at: None, loose: None, fx: None };
+                        let it = IterSpec { kind, items, slots: vec![], hint: None, panic_at: None, loose: None, fx: None, upper: None };
                         let mut ops = prefix.clone();
                         ops.push(if collect { Op::Collect { slot: 3, it } } else { Op::Extend { slot: 0, it } });
                         ops.push(Op::Compare { a: 0, b: 1 });
@@ -698,7 +698,7 @@ fn recipe(r: u8, text: &str, t: Slot, scratch: Slot, static_k: Option<u16>) -> V
             Op::FromText { slot: t, via: Via::Str, text: format!("€{text}") },
             Op::Remove { slot: t, idx: Idx::Raw(0), try_: false },
         ],
-        11 => vec![Op::Collect { slot: t, it: IterSpec { kind: IterKind::Char, items: vec![tx], slots: vec![], hint: None, panic_at: None, loose: None, fx: None } }],
+        11 => vec![Op::Collect { slot: t, it: IterSpec { kind: IterKind::Char, items: vec![tx], slots: vec![], hint: None, panic_at: None, loose: None, fx: None, upper: None } }],
         _ => vec![Op::FromText { slot: t, via: Via::Str, text: tx }],
     }
 }
@@ -728,9 +728,25 @@ fn c17_strategy(max: usize) -> BoxedStrategy<History> {
                     s.push(if salt % 2 == 0 { 'y' } else { 'é' });
                     s
                 }
-                4 => {
+                4 if salt % 2 == 0 => {
                     let b = crate::world::boundaries(&t1);
                     t1[..b[(salt as usize * b.len()) >> 8]].to_string()
+                }
+                4 => {
+                    // same length, one character in the middle replaced by another of the same width
+                    let cs: Vec<char> = t1.chars().collect();
+                    if cs.is_empty() {
+                        "x".to_string()
+                    } else {
+                        let i = (salt as usize / 2) % cs.len();
+                        let repl = match cs[i].len_utf8() {
+                            1 => if cs[i] == 'X' { 'Y' } else { 'X' },
+                            2 => if cs[i] == 'ß' { 'é' } else { 'ß' },
+                            3 => if cs[i] == '\u{3080}' { '\u{3040}' } else { '\u{3080}' },
+                            _ => if cs[i] == '\u{10FFFF}' { '𝄞' } else { '\u{10FFFF}' },
+                        };
+                        cs.iter().enumerate().map(|(j, c)| if j == i { repl } else { *c }).collect()
+                    }
                 }
                 _ => format!("{t1}{}", build_text(salt as usize % 5, &[salt], false)),
             };
@@ -754,9 +770,42 @@ pub fn c17(tier: Tier, seed: u64) -> Verdict {
     let t0 = Instant::now();
     let rule: fn(&Ctx) -> bool = |c| c.tags.contains("c17_same_text_diff_storage") || c.tags.contains("c17_diff_late");
     let mut merged = Merged::new();
+    // exhaustive: every pair of texts of up to 3 characters over {a, b, é} (every position at which two short texts
+    // can differ), each built directly and through a history that leaves stale bytes behind the end
+    {
+        let mut texts: Vec<String> = vec![String::new()];
+        let mut frontier = vec![String::new()];
+        for _ in 0..3 {
+            let mut next = Vec::new();
+            for p in &frontier {
+                for u in ['a', 'b', 'é'] {
+                    let mut t = p.clone();
+                    t.push(u);
+                    next.push(t);
+                }
+            }
+            texts.extend(next.iter().cloned());
+            frontier = next;
+        }
+        let mut list: Vec<History> = Vec::new();
+        for t1 in &texts {
+            for t2 in &texts {
+                for (r1, r2) in [(0u8, 0u8), (2, 0), (0, 3), (2, 4)] {
+                    let mut ops = recipe(r1, t1, 0, 1, None);
+                    ops.extend(recipe(r2, t2, 2, 3, None));
+                    ops.push(Op::Compare { a: 0, b: 2 });
+                    list.push(History { ops, plan: Plan::default() });
+                }
+            }
+        }
+        merged.merge(super::enumerators::run_history_list("C17", list.len(), |i| list[i].clone(), rule));
+        merged.counters.insert("short_pairs_exhaustive".into(), list.len() as u64);
+    }
     let n = tier.pick(12_000, 400_000);
-    let m = run_sharded("C17", seed, 0, n, || c17_strategy(120), plain_history_case("C17", rule));
-    merged.merge(m);
+    if merged.violation.is_none() {
+        let m = run_sharded("C17", seed, 0, n, || c17_strategy(120), plain_history_case("C17", rule));
+        merged.merge(m);
+    }
     if merged.violation.is_none() {
         let p = Profile { w_compare: 30, w_clone: 18, ..Profile::base() };
         let m = run_sharded("C17", seed, 1, n / 2, || history_strategy(&p), plain_history_case("C17", rule));
@@ -767,7 +816,7 @@ pub fn c17(tier: Tier, seed: u64) -> Verdict {
         tier,
         seed,
         "exploration",
-        "pairs (text1 via recipe1, text2 via recipe2) with 12 recipes that reach the same text through different histories (direct, static prefix, built longer then truncated/popped, over-allocated, shared clone truncated, shrunk to inline, single pushes, after reserve, sole survivor with stale bytes behind the end, after remove, collected); text2 is the same text, differs only in its last character, is a prefix or an extension; readers: ==, cmp, partial_cmp, hash (SipHash with fixed keys and FNV), Display, Debug, padded format, == with str/&str/String/Cow in both orders, HashMap/BTreeMap lookup by &str, AsRef/Deref/Borrow, String::from; also compare operations inside general histories; non-trivial = equal texts in different storage kind / capacity / sharing, or different texts sharing a prefix of >= 15 bytes; distinct history digests",
+        "pairs (text1 via recipe1, text2 via recipe2) with 12 recipes that reach the same text through different histories (direct, static prefix, built longer then truncated/popped, over-allocated, shared clone truncated, shrunk to inline, single pushes, after reserve, sole survivor with stale bytes behind the end, after remove, collected); text2 is the same text, differs only in its last character or in one character in the middle, is a prefix or an extension; exhaustively all pairs of texts of up to 3 characters over {a, b, é}; readers: ==, cmp, partial_cmp, hash (SipHash with fixed keys, FNV and a word-at-a-time hasher; also as element of a slice, Vec and tuple next to an empty string), Display, Debug, padded format, == with str/&str/String/Cow in both orders, HashMap/BTreeMap lookup by &str, AsRef/Deref/Borrow, String::from; also compare operations inside general histories; non-trivial = equal texts in different storage kind / capacity / sharing, or different texts sharing a prefix of >= 15 bytes; distinct history digests",
         ASSUME_HIST,
         &merged,
         t0.elapsed().as_secs_f64(),
